@@ -34,6 +34,17 @@ CHECKS["C04"] = dict(
     technique="TLA+ reference semantics of the rule kinds, TLC-enumerated vectors replayed into the real rules, TLC re-evaluation of each recorded answer",
     ref="3 (C04)")
 
+_E2E_NOTE = "Trusted: TLC; bash/sleep/kill; the materialisation of a scenario (commands built from printf/exit/kill/sleep; what each command does is fixed by construction). Only the enumerated scenario families are explored; quick runs a seeded sample of them (all single-test scenarios are always included), thorough runs thousands."
+_E2E_TECH = "TLA+ spec of the scrut-test run (documents loop, executors, verdict, exit status), TLC model check + TLC-generated scenarios run with the real binary + TLC evaluation of the property predicate on each observed run"
+CHECKS["C05"] = dict(engine="TestCommand", ref="3 (C05), Appendix C", note=_E2E_NOTE, technique=_E2E_TECH,
+    text="specs/TestCommand.tla models `scrut test` (per-document executor loop incl. signal/unknown padding, validate(), accounting, exit status); TLC checks C05ok (success iff exit code equal to the expected one and configured stream accepted; wrong code reported as such regardless of output; no success for a command without exit code nor for test cases after it) on every scenario of the family (<= 3 test cases x 14 behaviour kinds incl. stderr/combined selection and SIGKILL, Markdown and Cram). Each selected scenario is materialised as a real document, run with the real binary (-r json, marker log of what ran), and TLC evaluates C05ok on the observed results.")
+CHECKS["C14"] = dict(engine="TestCommand", ref="3 (C14), Appendix A.2", note=_E2E_NOTE + " Timing: durations 0 or 3 s against limits 1 or 6 s, 1.5 s slack, so scheduling noise cannot flip a verdict.", technique=_E2E_TECH,
+    text="The model carries an integer clock, the document deadline and the PickLimit step (min of per-test timeout and remaining document time); TLC checks C14ok on all 117 combinations of slow-test position x per-test timeout {none,1,6} x front-matter total_timeout {none,0,1,6} x --timeout-seconds {none,1,6} (Markdown) and the Cram variants. ALL of them are run with the real binary (sleep 3) in the quick tier; TLC evaluates on each observed run: exceeded limit => timeout result + later ones skipped and not run + exit 50 + document stopped within limit+1.5 s + the timed-out command really ended (no late marker); inside all limits => never timeout.")
+CHECKS["C15"] = dict(engine="TestCommand", ref="3 (C15)", note=_E2E_NOTE, technique=_E2E_TECH,
+    text="Scenario family: skipping test case at position 0..3, skip code default 80 / document default 7 / inline 9 / decoy (exit 80 where the code is 7), expected exit code of the skipper none / equal / other, passing and failing neighbours, a second document before or after, Cram `exit 80` and `(exit 80)`. TLC checks C15ok on the model for all 1922 scenarios and on each observed run of the real binary: skipping document => every result skipped, run not failed by it, other documents unaffected; otherwise no skipped result.")
+CHECKS["C20"] = dict(engine="TestCommand", ref="3 (C20)", note=_E2E_NOTE, technique=_E2E_TECH,
+    text="Scenario family: 1-3 documents (Markdown and Cram mixed), shared prepend/append documents via -P/-A or front-matter, test cases that pass / fail on output / fail on code / detach / skip / die, faults (unreadable document, unparsable document, missing shell). TLC checks C20ok on the model (6342 scenarios) and on each observed run: the marker log lists every command once in assembled order (prefix when a document was cut short), at most one result per test case and one for every non-detached one, exit status 1 / 50 / 0 as specified, and the pretty renderer's summary adds up and agrees with the JSON results.")
+
 NOT_YET = {
 }
 
@@ -75,6 +86,8 @@ def main():
         "engines": [
             {"name": "DiffAlgo", "path": "specs/DiffAlgo.tla", "serves_properties": ["C01", "C02", "C03"],
              "kind_free_text": "TLA+ spec of DiffTool::diff with reference language semantics; MC_DiffAlgo (TLC MC/GEN), DiffTrace (result-level trace validation), DiffStepTrace (step-level trace validation of hook events)"},
+            {"name": "TestCommand", "path": "specs/TestCommand.tla", "serves_properties": ["C05", "C14", "C15", "C20"],
+             "kind_free_text": "TLA+ spec of `scrut test` end to end: TestCommandProps (scenario structure + property predicates), TestCommand (the machine), MC_TestCommand (scenario families, TLC MC/GEN), TestCommandTrace (TLC evaluation of observed runs); run/scenario.py materialises and runs scenarios with the real binary"},
             {"name": "Rules", "path": "specs/Rules.tla", "serves_properties": ["C04"],
              "kind_free_text": "TLA+ reference semantics of the expectation kinds; MC_Rules (enumeration + sanity), RulesTrace (re-evaluation of implementation answers)"},
         ],
